@@ -338,6 +338,62 @@ def _with_earlier_data(draw, base):
     return case
 
 
+# ------------------------------------------------------------------ whole-number points held in integer / single-precision / strided arrays
+@st.composite
+def form_cases(draw):
+    d = draw(st.integers(1, 3))
+    n = draw(st.integers(2, 7))
+    pts = draw(st.lists(st.tuples(*[st.integers(-8, 8)] * d), min_size=n, max_size=n, unique=True))
+    spec = draw(gc.kernel_specs(d, max_depth=2, hetero=True))
+    return {"seed": draw(st.integers(0, 2**31)), "d": d, "n": n, "x": [list(t) for t in pts], "kernel": spec,
+            "u": [[draw(st.integers(-9, 9)) for _ in range(d)] for _ in range(draw(st.integers(1, 4)))],
+            "mean": draw(st.sampled_from(["Constant", "Linear", "Quadratic"])),
+            "theta": [draw(st.floats(-1.0, 1.0)) for _ in range(rk.n_params(spec, n, d))],
+            "mean_theta": [draw(st.floats(-2, 2)) for _ in range(1 + 2 * d)],
+            "form": draw(st.sampled_from(["int64", "int32", "float32", "fortran", "strided"]))}
+
+
+def body_forms(case, ctx):
+    from props.c02_gp_posterior import as_form
+
+    d, n, spec, form = case["d"], case["n"], case["kernel"], case["form"]
+    X = np.array(case["x"], dtype=float).reshape(n, d)
+    U = np.array(case["u"], dtype=float).reshape(-1, d)
+    theta = np.array(case["theta"], dtype=float)
+    if rk.has(spec, "CP"):
+        # change-point locations / widths: keep the generated numbers but make every width positive
+        kinds = rk.param_kinds(spec, n, d)
+        theta = np.array([abs(t) + 0.2 if k == "width" else t for t, k in zip(theta, kinds)])
+    tol = 1e-12 if form != "float32" else 1e-5
+    outs = []
+    for f in ("float64", form):
+        cov, mean = rk.build_kernel(spec), rk.build_mean(case["mean"])
+        with np.errstate(all="ignore"), warnings.catch_warnings():
+            warnings.simplefilter("ignore")
+            cov.pass_spatial_data(as_form(X, f))
+            mean.pass_spatial_data(as_form(X, f))
+            K = np.asarray(cov.build_covariance(theta.copy()), dtype=float)
+            K2, grads = cov.covariance_and_gradients(theta.copy())
+            C = np.asarray(cov(as_form(U, f), as_form(X, f), theta.copy()), dtype=float)
+            mth = np.array(case["mean_theta"][: mean.n_params], dtype=float)
+            mb = np.asarray(mean.build_mean(mth), dtype=float)
+            mq = np.asarray(mean(as_form(U, f)[:1], mth), dtype=float)
+        outs.append([K, np.asarray(K2, dtype=float), *[np.asarray(g, dtype=float) for g in grads], C, mb, mq])
+    names = ["build_covariance", "covariance_and_gradients K"] + [f"gradient {i}" for i in range(len(outs[0]) - 5)] + ["K(u, x)", "build_mean", "mean(q)"]
+    for name, a, b in zip(names, outs[0], outs[1]):
+        if a.shape != b.shape:
+            raise Violation(f"forms-shape:{form}", f"{rk.describe(spec)}: {name} has shape {b.shape} for {form} points, {a.shape} for float64")
+        sc = np.max(np.abs(a)) + 1e-300 if a.size else 1.0
+        e = float(np.max(np.abs(a - b))) / (tol * sc) if a.size else 0.0
+        ctx.ratio("forms", e, 1.0)
+        if not e <= 1:
+            raise Violation(f"forms:{form}:{classify(spec, d)}", f"{rk.describe(spec)} / {case['mean']} mean on whole-number points held as {form}: {name} = {b.ravel()[:5].tolist()}, "
+                                                               f"for the same points as float64 {a.ravel()[:5].tolist()}")
+    ctx.nontrivial(form in ("int64", "int32") and (spec["k"] in ("Sum", "CP") or d >= 2))
+    ctx.event("form=" + form)
+    ctx.event("kernel=" + ("CP" if rk.has(spec, "CP") else spec["k"]))
+
+
 def problems(tier):
     return _with_earlier_data(gc.gp_problems(max_n=15, max_d=3, max_m=4, min_n=1))
 
@@ -359,4 +415,6 @@ SUBCHECKS = [
         rule="sum or change-point kernel"),
     Sub("means", lambda t: mean_cases(), body_means, quick=800, thorough=20000, shards_quick=4, shards_thorough=8,
         rule="non-constant mean in d >= 2"),
+    Sub("forms", lambda t: form_cases(), body_forms, quick=800, thorough=20000, shards_quick=4, shards_thorough=16,
+        rule="integer-typed points with a composite kernel or d >= 2"),
 ]
